@@ -168,3 +168,41 @@ Proof.
   rewrite (update_run_not_truncated _ ob R R' HU H).
   rewrite check_step_ignores_ff_flag. reflexivity.
 Qed.
+
+(* ------------------------------------------------------------------ known debt is a matter of the key only
+   is_new_failure asks whether the baseline CONTAINS the key; the figures an entry records (lines,
+   hash, count) play no part: a recorded file that has grown since the baseline was written is
+   still known debt and does not stop a fail-fast run (seeded change C09-m8 compared the current
+   size with the recorded one). *)
+Lemma contains_keys_only : forall k b b', keys b = keys b' -> contains k b = contains k b'.
+Proof.
+  intros k b. unfold contains. induction b as [|[k1 e1] b IH]; intros [|[k2 e2] b'] H; try discriminate.
+  - reflexivity.
+  - cbn [keys map fst] in H. injection H as E1 E2. subst k2. cbn [lookup].
+    destruct (str_eqb k k1); [reflexivity|]. apply IH. exact E2.
+Qed.
+
+Lemma ff_trigger_keys_only : forall b b' r,
+  keys b = keys b' -> ff_trigger (Some b) r = ff_trigger (Some b') r.
+Proof.
+  intros b b' r H. unfold ff_trigger. rewrite (contains_keys_only (key_of r) b b' H). reflexivity.
+Qed.
+
+Lemma ff_sub_keys_only : forall b b' R R',
+  keys b = keys b' -> ff_sub (Some b) R R' -> ff_sub (Some b') R R'.
+Proof.
+  intros b b' R R' H. unfold ff_sub.
+  assert (E : forall r, ff_trigger (Some b) r = ff_trigger (Some b') r) by (intro r; apply ff_trigger_keys_only; exact H).
+  unfold ff_sub_gen. intros [S D]. split; [exact S|].
+  intro N. destruct (D N) as [r [HI T]]. exists r. split; [exact HI|]. rewrite <- E. exact T.
+Qed.
+
+Lemma known_debt_keys_only : forall (b b' : baseline) (R R' : list result),
+  keys b = keys b' ->
+  ((forall r : result, ff_trigger (Some b) r = ff_trigger (Some b') r) /\
+   (ff_sub (Some b) R R' -> ff_sub (Some b') R R'))%type.
+Proof.
+  intros b b' R R' H. split.
+  - intro r. exact (ff_trigger_keys_only b b' r H).
+  - exact (ff_sub_keys_only b b' R R' H).
+Qed.
